@@ -1,5 +1,9 @@
 import H2.Server.Model
 import H2.Server.Flow
+import H2.Server.Lock.Slots
+import H2.Server.Lock.Recv
+import H2.Server.Lock.Closing
+import H2.Server.Lock.Limits
 /-!
 # Lockstep: the abstract per-property models run beside the full server model
 
@@ -19,6 +23,10 @@ structure Lock where
   /-- streams whose body is streamed: the reader may report its end on a read of its own, so END_STREAM can
   come one step after the last octet -/
   streamed : List Nat := []
+  slots : Lock.Slots.L := .init
+  recv : Lock.Recv.L := .init
+  closing : Lock.Closing.L := .init
+  limits : Lock.Limits.L := .init
   mismatches : List String := []
 deriving Inhabited
 
@@ -73,7 +81,7 @@ def flowEvents (before : Srv) (ev : Event) (r : R) : Option (List Flow.Ev) :=
     some (opens ++ rsts ++ evs)
   | _ => some []
 
-def Lock.step (l : Lock) (before : Srv) (ev : Event) (r : R) : Lock :=
+def Lock.stepFlow (l : Lock) (before : Srv) (ev : Event) (r : R) : Lock :=
   if !l.flowOn then l else
   if r.s.slStopped || r.s.undefined then { l with flowOn := false } else
   match flowEvents before ev r with
@@ -95,5 +103,15 @@ def Lock.step (l : Lock) (before : Srv) (ev : Event) (r : R) : Lock :=
     let l := { l with fullFins := fullFins, streamed := streamed }
     let ok := sameTotals ((dataBySid r.out).filter (·.2 > 0)) (flowBySid outs) && finOk && finOk2
     { l with flow := st, mismatches := if ok then l.mismatches else l.mismatches ++ [s!"flow full={dataBySid r.out} abstract={flowBySid outs} evs={evs.length} fwd={r.fwd.length} cw={l.flow.cw} strms={l.flow.strms.map fun x => (x.id, x.window, x.pending, x.responded, x.running)}"] }
+
+/-- the flow model, then the accounting models (each adapter reports at most one mismatch per step) -/
+def Lock.step (l : Lock) (before : Srv) (ev : Event) (r : R) : Lock :=
+  let l := l.stepFlow before ev r
+  let (sl, m1) := l.slots.step before ev r
+  let (rl, m2) := l.recv.step before ev r
+  let (cl, m3) := l.closing.step before ev r
+  let (ll, m4) := l.limits.step before ev r
+  { l with slots := sl, recv := rl, closing := cl, limits := ll,
+           mismatches := l.mismatches ++ m1.toList ++ m2.toList ++ m3.toList ++ m4.toList }
 
 end H2.Server
